@@ -85,6 +85,8 @@ def programs():
     add("T_plus_raw", ("Plain", "parr"), "auto x = e.t_int + e.p_arr; (void)x;", "reject", "tainted<int> + raw array")
     add("TV_plus_raw", ("Plain", "pint"), "auto x = e.v_int + e.p_pint; (void)x;", "reject", "tainted_volatile<int> + raw application pointer")
     add("T_minus_raw", ("Plain", "pint"), "auto x = e.t_int - e.p_pint; (void)x;", "reject")
+    add("T_plus_raw", ("Plain", "convp"), "auto x = e.t_int + e.p_convp; (void)x;", "reject", "tainted<int> + an object that converts implicitly to a raw pointer")
+    add("TV_plus_raw", ("Plain", "convp"), "auto x = e.v_int + e.p_convp; (void)x;", "reject", "tainted_volatile<int> + an object that converts implicitly to a raw pointer")
     # foreign-sandbox wrappers
     add("T_assign", ("Foreign", "int"), "e.t_int = e.x_int;", "reject")
     add("TV_assign", ("Foreign", "int"), "e.v_int = e.x_int;", "reject")
@@ -200,7 +202,7 @@ def run(tier, seed, replay):
                 vacuous.append((fam, p))
     # ---- generated Coq table: forbidden operands are encoded by kind: Plain pointer-like types, Foreign, BadSig ----
     m2.KIND_COQ.update({"Foreign": "KAppPtr", "BadSig": "KIntHint", "GoodSig": "KBoolHint"})   # only tags inside this table
-    ptrish = ["pint", "pcchar", "pvoid", "pst", "fn", "parr", "st", "sarr"]
+    ptrish = ["pint", "pcchar", "pvoid", "pst", "fn", "parr", "st", "sarr", "convp"]
     lines = ["(* generated by harness/props/c02.py from the compiler's verdicts on /repo's headers — do not edit *)",
              "From RLBoxV Require Import Typing Typing_proofs.", "Local Open Scope nat_scope.", "",
              "(* encoding of operand classes in this table: Plain + pointer-like type = raw application pointer / array of raw pointers /",
